@@ -57,6 +57,7 @@ def c02(ctx, v):
 
 def c03(ctx, v):
     T.r_tables(ctx, v, want=("R-GROW",))
+    T.r_growval(ctx, v)
     T.r_repair(ctx, v)
     if S:
         S.r_prim(ctx, v)
@@ -107,6 +108,7 @@ def r_absent(ctx, v):
 def c04(ctx, v):
     fixture_once(ctx, ["R-UNSAFEKINDS"])
     T.r_tables(ctx, v, want=("R-GROW",))
+    T.r_growval(ctx, v)
     T.r_repair(ctx, v)
     if S:
         S.r_prim(ctx, v)
@@ -141,6 +143,7 @@ def c07(ctx, v):
     fixture_once(ctx, ["R-HINT"])
     M.r_hint(ctx, v)
     M.r_strat(ctx, v)
+    M.r_consume(ctx, v)
     only = lambda root, d: d.kind == "BULK"
     O.r_restore(ctx, v, PQ, only=only)
     O.r_restore(ctx, v, DPQ, only=only)
@@ -192,6 +195,8 @@ def c12(ctx, v):
 
 
 def c13(ctx, v):
+    fixture_once(ctx, ["R-SELFMADE"])
+    I.r_selfmade(ctx, v)
     I.r_esi(ctx, v, only_types=lambda T_: not T_.endswith("IterMut"), key_floor=4)
     I.r_wiring_all(ctx, v)
     M.r_side(ctx, v)  # the sorted iterators consume by the queue's own pop family only
